@@ -22,6 +22,12 @@ def check(run):
     exc(run, p, sh)
     rexflags(run, p)
     readonly(run, p, roots)
+    from .common import zero_rule
+    n = zero_rule(run, 'C08-ZERO', p, list(sh.methods.values()), {'execute_scalar', 'agg', 'min', 'max', 'len', 'sum'},
+                  'zero is a statistic: in the SQL handler a value obtained from execute_scalar() or an aggregate (a minimum length of 0, '
+                  'a count of 0, a minimum of 0) is compared or tested with `is None`, never used as a bare condition - a truthiness '
+                  'test would turn "the shortest string is empty" into "no strings"')
+    run.floor('C08-ZERO', n, 3)
     from .c07 import agg
     agg(run, p)
     from .common import nocache_rule
